@@ -158,6 +158,29 @@ def judge(prop, probes, known):
     return viol, mach, klines
 
 
+def run_stage(prop, genname, tier):
+    """Runs a probe grammar as an additional stage of another engine's check. Returns (coverage part, violation body or None, machinery list)."""
+    import engines
+    mod = __import__(genname)
+    spec = mod.generate(tier)
+    host = Host(spec.get("features"))
+    host.build()
+    workdir = os.path.join(BUILD, "probe-work", prop + "-stage")
+    subprocess.run(["rm", "-rf", workdir])
+    probes = spec["probes"]
+    evaluate(host, probes, workdir, spec.get("externs", ("gc_arena",)))
+    viol, mach, _ = judge(prop, probes, engines.known_open(prop))
+    cov = {"programs": len(probes), "rejected_by_rustc": sum(1 for p in probes if p.accepted is False), "accepted_by_rustc": sum(1 for p in probes if p.accepted),
+           "distinct_nontrivial": sum(1 for p in probes if p.expect != "accept"), "rule": spec["rule"],
+           "samples": [{"id": p.id, "accepted_by_rustc": p.accepted, "error_codes": p.codes} for p in probes[:: max(1, len(probes) // 4)][:4]]}
+    body = None
+    if viol:
+        p, msg = viol[0]
+        body = {"probe_id": p.id, "expect": p.expect, "message": msg, "features": spec.get("features"), "externs": list(spec.get("externs", ("gc_arena",))), "program": p.src}
+        log(f"violated: probe {p.id}: {msg}")
+    return cov, body, mach
+
+
 GENERATORS = {}
 
 
